@@ -22,7 +22,8 @@ theorem prep_value {w : World} {ctr : Nat} {rank0 : SlabID → Nat}
         ∃ c c1 wr, w.cont? z = some c ∧ v = .child z wr ∧ w1.cont? z = some c1 ∧ Cont.SameData c c1 ∧
           e = ⟨slotSize c1 wr, .ref z⟩ ∧ slabIDStorableSize + 2 * wr ≤ lim ∧
           c1.isInlined = c1.inlinable (lim - 2 * wr)) ∧
-      (∀ x, e.pay = .ref x → O1 x) ∧ (∀ e0, v = .plain e0 → e = e0) := by
+      (∀ x, e.pay = .ref x → O1 x) ∧ (∀ e0, v = .plain e0 → e = e0) ∧
+      rank' p = rank0 p ∧ ∀ z, rank0 z ≤ rank' z := by
   cases v with
   | plain e0 =>
     simp only [World.storableOf] at hst
@@ -30,16 +31,16 @@ theorem prep_value {w : World} {ctr : Nat} {rank0 : SlabID → Nat}
     obtain ⟨⟨h1, n, hn⟩, hsz⟩ := hv
     exact ⟨rank0, fun _ => False, H0, H0.rank, ContsSig.refl _, rfl, rfl, rfl, rfl, rfl, h1, hsz,
       fun _ _ => rfl, id, fun z hz => absurd hz id, fun x hx => (by rw [hn] at hx; cases hx),
-      fun e0 he0 => (by cases he0; rfl)⟩
+      fun e0 he0 => (by cases he0; rfl), rfl, fun _ => Nat.le_refl _⟩
   | child x wr =>
     obtain ⟨hlive, hroot, hanc, hwb⟩ := hv
     obtain ⟨c, hx⟩ := Option.isSome_iff_exists.mp hlive
     simp only [World.storableOf] at hst
-    obtain ⟨rank', c1, H1, hr', hrk, hc1, hsd1, he, hinl1, he1, he2, hco1, hT1, ha1, hh1, hm1, hctr1, hroot1, hS1⟩ :=
-      prep_child H0 hx hroot hanc hwb hlim hst
+    obtain ⟨rank', c1, H1, hr', hrk, hc1, hsd1, he, hinl1, he1, he2, hco1, hT1, ha1, hh1, hm1, hctr1, hroot1, hS1,
+      hrp, hrle⟩ := prep_child H0 hx hroot hanc hwb hlim hst
     have hxp : p ≠ x := by intro h; rw [h] at hrk; omega
     refine ⟨rank', PendChild (fun _ => False) x, H1, hr', hS1, hT1, ha1, hh1, hm1, hctr1, he1, he2, ?_, ?_, ?_, ?_,
-      fun e0 he0 => by cases he0⟩
+      fun e0 he0 => (by cases he0), hrp, hrle⟩
     · intro z hz
       exact hco1 z (fun h => hz (Or.inr h))
     · rintro (h | h)
@@ -88,12 +89,12 @@ theorem WorldOkGen.map_noidx {w : World} {ctr : Nat} {rank : SlabID → Nat} {st
     obtain ⟨_, a, ha⟩ := H.idxLive p x i h
     rw [hp] at ha; cases ha
 
-theorem mapSet_ok {w : World} {p : SlabID} {k : MKey} {v : WVal} {cx : Ctx} {oldr : Option Elem} {w' : World}
-    {cx' : Ctx} (H : WorldOk D w cx.ctr) (hhand : HandleOk w p) (hk : KeyOk w.T 4 (D p) k)
-    (hv : WValOk w p (maxInlineMapValue w.T k.size) v)
+theorem mapSet_okA {rank0 : SlabID → Nat} {w : World} {p : SlabID} {k : MKey} {v : WVal} {cx : Ctx}
+    {oldr : Option Elem} {w' : World} {cx' : Ctx} (H0 : WorldOkGen D rank0 none (fun _ => False) w cx.ctr)
+    (hhand : HandleOk w p) (hk : KeyOk w.T 4 (D p) k) (hv : WValOk w p (maxInlineMapValue w.T k.size) v)
     (h : w.mapSet p k v cx = .ok (oldr, w', cx')) :
-    WorldOk D w' cx'.ctr ∧ cx.ctr ≤ cx'.ctr ∧ MapSetAt w w' p k v oldr ∧ HandleOk w' p ∧ SigFrame w w' p := by
-  obtain ⟨rank0, H0⟩ := H
+    WorldOk D w' cx'.ctr ∧ cx.ctr ≤ cx'.ctr ∧ MapSetAt w w' p k v oldr ∧ HandleOk w' p ∧ SigFrame w w' p ∧
+      OpFrame rank0 w w' p (Moved (some v) oldr) := by
   unfold mapSet at h
   simp only [bind, Except.bind] at h
   split at h
@@ -115,8 +116,8 @@ theorem mapSet_ok {w : World} {p : SlabID} {k : MKey} {v : WVal} {cx : Ctx} {old
           · cases hset
           · rename_i w3 cx3' hnp
             cases hset
-            obtain ⟨rank', O1, H1, hr', hS1, hT1, ha1, hh1, hm1, hctr1, he1, he2, hco1, hO1p, hO1, hO1e, hplain⟩ :=
-              prep_value H0 (maxInlineMapValue_le_arr _ _) hv hst
+            obtain ⟨rank', O1, H1, hr', hS1, hT1, ha1, hh1, hm1, hctr1, he1, he2, hco1, hO1p, hO1, hO1e, hplain, hrp,
+              hrle⟩ := prep_value H0 (maxInlineMapValue_le_arr _ _) hv hst
             have hpm1 : w1.cont? p = some (.map m) := by rw [hco1 p hO1p]; exact hpm
             have hmok : MapOk w.T (D p) m cx1.ctr := by rw [hctr1]; exact H0.conts p _ hpm
             have hcfg := H0.cfgOk hpm
@@ -263,9 +264,9 @@ theorem mapSet_ok {w : World} {p : SlabID} {k : MKey} {v : WVal} {cx : Ctx} {old
                   exact g1 q ⟨_, ha0, List.mem_of_getElem? this⟩
             -- the handle of `p`
             have hhand3 : HandleOk w3 p := hhand2.transfer (fun q y => (F3.sig.holds_iff q y).mp) F3.cur
-            have hhand3c : HandleOk (w3.setCallbackMap p k v) p := by
+            have hcur3c : CurKept w3 (w3.setCallbackMap p k v) := by
               cases v with
-              | plain e0 => exact hhand3
+              | plain e0 => exact CurKept.refl w3
               | child x wr =>
                 have hx1 : O1 x := by
                   simp only [World.storableOf] at hst
@@ -286,10 +287,55 @@ theorem mapSet_ok {w : World} {p : SlabID} {k : MKey} {v : WVal} {cx : Ctx} {old
                         rw [Cont.pays, Cont.storedElems]
                         exact List.mem_map.mpr ⟨e, List.mem_map.mpr ⟨_, hmem3, rfl⟩, g3⟩⟩
                       (by rw [hx3]; rfl) hcur)
-                exact hhand3.transfer (fun q y hq => by
-                  obtain ⟨qc, hqc, hm⟩ := hq
-                  rw [cont?_setCallbackMap] at hqc
-                  exact ⟨qc, hqc, hm⟩) hcur34
+                exact hcur34
+            have hholds3c : ∀ q y, Holds (w3.setCallbackMap p k v) q y → Holds w3 q y := by
+              intro q y hq
+              obtain ⟨qc, hqc, hm⟩ := hq
+              rw [cont?_setCallbackMap] at hqc
+              exact ⟨qc, hqc, hm⟩
+            have hhand3c : HandleOk (w3.setCallbackMap p k v) p := hhand3.transfer hholds3c hcur3c
+            -- all the handles: the steps so far
+            have K03 : HKeep (fun z => O1 z ∨ ∃ o, oldo = some o ∧ o.pay = .ref z) w (w3.setCallbackMap p k v) := by
+              have K01 : HKeep (fun z => O1 z ∨ ∃ o, oldo = some o ∧ o.pay = .ref z) w w1 :=
+                HKeep.of_sig _ hS1 hidx1 hh1
+              have K12 : HKeep (fun z => O1 z ∨ ∃ o, oldo = some o ∧ o.pay = .ref z) w1 (w1.setCont p (.map m')) := by
+                rcases heff with ⟨hnone, habs, A, B, hA, hB⟩ | ⟨v0, A, B, hsome, hA, hB⟩
+                · refine hkeep_insert (pc' := .map m') (i := A.length) _ hpm1 rfl (kslots_map_insert w1.T hA hB)
+                    (by simp [Cont.kslots, hA]) (fun x hx => Or.inl (hO1e x hx)) rfl ?_ (by simp)
+                    (fun z hz => by simp [Ne.symm hz])
+                  intro q x
+                  split
+                  · rename_i hpq; subst hpq
+                    rw [idxOf_setCont, H1.map_noidx hpm1 x]; rfl
+                  · rfl
+                · exact hkeep_set (pc' := .map m') (i := A.length) _ hpm1 rfl (kslots_map_set w1.T hA hB)
+                    (kslots_map_mid w1.T hA) (fun x hx => Or.inr ⟨v0, hsome, hx⟩) (fun x hx => Or.inl (hO1e x hx)) rfl
+                    (fun q x => rfl) (by simp) (fun z hz => by simp [Ne.symm hz])
+              have K23 : HKeep (fun z => O1 z ∨ ∃ o, oldo = some o ∧ o.pay = .ref z) _ w3 :=
+                HKeep.of_curKept _ (fun q y => (F3.sig.holds_iff q y).mp) F3.cur
+              exact ((K01.trans K12).trans K23).trans (HKeep.of_curKept _ hholds3c hcur3c)
+            have hO1moved : ∀ z old, O1 z → Moved (some v) old z := by
+              intro z old hz
+              obtain ⟨_, _, _, _, _, wr, _, hv', _⟩ := hO1 z hz
+              exact Or.inl ⟨wr, by rw [hv']⟩
+            have hsome3c : ∀ z, ((w3.setCallbackMap p k v).cont? z).isSome = (w.cont? z).isSome := by
+              intro z; rw [cont?_setCallbackMap, F3.sig.isSome, hsome2]
+            -- the frame so far
+            have hframe3c : ∀ z, z ≠ p → rank0 p ≤ rank0 z → ¬ O1 z → (∀ wr, v ≠ .child z wr) →
+                (w3.setCallbackMap p k v).cont? z = w.cont? z ∧
+                AList.find? (w3.setCallbackMap p k v).hinfo z = AList.find? w.hinfo z := by
+              intro z hz hrk hzO hzv
+              have hrk' : rank' p ≤ rank' z := by have := hrle z; omega
+              refine ⟨?_, ?_⟩
+              · rw [cont?_setCallbackMap, F3.above z hz hrk', cont?_setCont_ne _ _ _ _ hz, hco1 z hzO]
+              · rw [hinfo_setCallbackMap_ne _ _ _ _ _ hzv, F3.hinfo z hz hrk']
+                show AList.find? w1.hinfo z = _
+                rw [hh1]
+            have hidx3c' : ∀ q z, AList.find? ((w3.setCallbackMap p k v).idxOf q) z = AList.find? (w.idxOf q) z := by
+              intro q z
+              have : (w3.setCallbackMap p k v).idxOf q = w3.idxOf q := by simp [World.idxOf]
+              rw [this, F3.idx]
+              exact hidx1 q z
             -- the new child in the final worlds
             have hchild3 : ∀ x wr, v = .child x wr → e.pay = .ref x ∧
                 (∃ c, (w3.setCallbackMap p k v).cont? x = some c ∧ e.size = slotSize c wr ∧
@@ -315,16 +361,29 @@ theorem mapSet_ok {w : World} {p : SlabID} {k : MKey} {v : WVal} {cx : Ctx} {old
               simp only [pure, Except.pure] at h
               cases h
               have H5 := H4.congr_O (O' := fun _ => False) (fun z => ⟨fun ⟨o, ho, _⟩ => (by cases ho), fun h => absurd h id⟩)
+              have hxhand : ∀ x wr, v = .child x wr → HandleOk (w3.setCallbackMap p k v) x := by
+                intro x wr hvx
+                obtain ⟨h1, ⟨c, h2, h3, _⟩, h5⟩ := hchild3 x wr hvx
+                refine HandleOk.child x _ h5 ?_ hhand3c
+                exact ⟨maxInlineMapValue (w3.setCallbackMap p k v).T k.size, e,
+                  Or.inr ⟨m3, k, by rw [cont?_setCallbackMap]; exact hcp3, rfl, by rw [hl3]; exact hemem, h1,
+                    rfl⟩⟩
               refine ⟨⟨rank', H5⟩, by have := hctr1; omega, ⟨m, m3, e, none, hpm, by rw [cont?_setCallbackMap]; exact hcp3,
                 by rw [hl3]; exact heff, fun o ho => (by cases ho), fun _ => rfl, hplain, fun x wr hvx => ?_⟩, hhand3c,
                 (((SigFrame.of_sig hS1 p).trans (sigFrame_setCont _ _ _)).trans (SigFrame.of_sig F3.sig p)).trans
-                  (sigFrame_cbMap _ _ _ _ _)⟩
-              obtain ⟨h1, ⟨c, h2, h3, _⟩, h5⟩ := hchild3 x wr hvx
-              refine ⟨h1, ?_, c, h2, h3⟩
-              refine HandleOk.child x _ h5 ?_ hhand3c
-              exact ⟨maxInlineMapValue (w3.setCallbackMap p k v).T k.size, e,
-                Or.inr ⟨m3, k, by rw [cont?_setCallbackMap]; exact hcp3, rfl, by rw [hl3]; exact hemem, h1,
-                  rfl⟩⟩
+                  (sigFrame_cbMap _ _ _ _ _),
+                fun z hz hrk hzE => ?_, fun q y _ => hidx3c' q y, fun z hzh hzs => ?_⟩
+              · obtain ⟨h1, ⟨c, h2, h3, _⟩, h5⟩ := hchild3 x wr hvx
+                exact ⟨h1, hxhand x wr hvx, c, h2, h3⟩
+              · exact hframe3c z hz hrk (fun h => hzE (hO1moved z none h)) (fun wr h => hzE (Or.inl ⟨wr, by rw [h]⟩))
+              · refine (K03.mono (fun z hz => ?_)).handleOk (E := Moved (some v) none) (fun z hz _ => ?_) hzh
+                  (by rw [← hsome3c]; exact hzs)
+                · rcases hz with h | ⟨o, ho, _⟩
+                  · exact hO1moved z none h
+                  · cases ho
+                · rcases hz with ⟨wr, h⟩ | ⟨o, ho, _⟩
+                  · exact hxhand z wr (by cases h; rfl)
+                  · cases ho
             | some o =>
               simp only at h
               split at h
@@ -417,12 +476,7 @@ theorem mapSet_ok {w : World} {p : SlabID} {k : MKey} {v : WVal} {cx : Ctx} {old
                 have hhand4 : HandleOk w' p :=
                   hhand3c.transfer (fun q y => (hS34.holds_iff q y).mp)
                     (CurKept.of_sig hS34 hidx43 (fun y hiy hy _ => by rw [hh4]; exact hy))
-                refine ⟨⟨rank', by rw [hctr4]; exact H5⟩, by have := hctr1; omega, ⟨m, m3, e, some o, hpm, hp4,
-                  by rw [hl3]; exact heff, fun o' ho' => ?_, fun h => (by cases h), hplain, fun x wr hvx => ?_⟩, hhand4,
-                  ((((SigFrame.of_sig hS1 p).trans (sigFrame_setCont _ _ _)).trans (SigFrame.of_sig F3.sig p)).trans
-                    (sigFrame_cbMap _ _ _ _ _)).trans (SigFrame.of_sig hS34 p)⟩
-                · cases ho'
-                  refine ⟨o2, rfl, hpay, ?_⟩
+                have hback : HandedBack w w' o := by
                   intro z c hz hc
                   have hzs3 : (w3.cont? z).isSome := by rw [F3.sig.isSome, hsome2, hc]; rfl
                   have hzp : z ≠ p := hpnot z hz
@@ -437,21 +491,57 @@ theorem mapSet_ok {w : World} {p : SlabID} {k : MKey} {v : WVal} {cx : Ctx} {old
                   refine ⟨c'', hc'', hni, hsd.vid, hsd.storedElems, ?_⟩
                   intro q hq
                   exact hunref z hz (by rw [cont?_setCallbackMap]; exact hzs3) q ((hS34.holds_iff q z).mp hq)
+                have hxhand : ∀ x wr, v = .child x wr → HandleOk w' x := by
+                  intro x wr hvx
+                  obtain ⟨h1, ⟨c, h2, h3, h4⟩, h5⟩ := hchild3 x wr hvx
+                  refine HandleOk.child x _ (by rw [hh4]; exact h5) ?_ hhand4
+                  exact ⟨maxInlineMapValue w'.T k.size, e,
+                    Or.inr ⟨m3, k, hp4, rfl, by rw [hl3]; exact hemem, h1, rfl⟩⟩
+                have hsome4 : ∀ z, (w'.cont? z).isSome = (w.cont? z).isSome := by
+                  intro z; rw [hS34.isSome, hsome3c]
+                have K34 : HKeep (fun z => O1 z ∨ ∃ o', some o = some o' ∧ o'.pay = .ref z)
+                    (w3.setCallbackMap p k v) w' := HKeep.of_sig _ hS34 hidx43 hh4
+                refine ⟨⟨rank', by rw [hctr4]; exact H5⟩, by have := hctr1; omega, ⟨m, m3, e, some o, hpm, hp4,
+                  by rw [hl3]; exact heff, fun o' ho' => ?_, fun h => (by cases h), hplain, fun x wr hvx => ?_⟩, hhand4,
+                  ((((SigFrame.of_sig hS1 p).trans (sigFrame_setCont _ _ _)).trans (SigFrame.of_sig F3.sig p)).trans
+                    (sigFrame_cbMap _ _ _ _ _)).trans (SigFrame.of_sig hS34 p),
+                  fun z hz hrk hzE => ?_, fun q y _ => by rw [hidx43]; exact hidx3c' q y, fun z hzh hzs => ?_⟩
+                · cases ho'
+                  exact ⟨o2, rfl, hpay, hback⟩
                 · obtain ⟨h1, ⟨c, h2, h3, h4⟩, h5⟩ := hchild3 x wr hvx
-                  refine ⟨h1, ?_, c, ?_, h3⟩
-                  · refine HandleOk.child x _ (by rw [hh4]; exact h5) ?_ hhand4
-                    exact ⟨maxInlineMapValue w'.T k.size, e,
-                      Or.inr ⟨m3, k, hp4, rfl, by rw [hl3]; exact hemem, h1, rfl⟩⟩
-                  · rw [f1 x (fun hh => h4 ⟨o, rfl, hh⟩)]; exact h2
+                  refine ⟨h1, hxhand x wr hvx, c, ?_, h3⟩
+                  rw [f1 x (fun hh => h4 ⟨o, rfl, hh⟩)]; exact h2
+                · have hzo : o.pay ≠ .ref z := fun h => hzE (moved_old _ (by rw [hpay]; exact h))
+                  obtain ⟨g1, g2⟩ := hframe3c z hz hrk (fun h => hzE (hO1moved z _ h))
+                    (fun wr h => hzE (Or.inl ⟨wr, by rw [h]⟩))
+                  exact ⟨by rw [f1 z hzo]; exact g1, by rw [hh4]; exact g2⟩
+                · refine ((K03.trans K34).mono (fun z hz => ?_)).handleOk (E := Moved (some v) (some o2))
+                    (fun z hz hl => ?_) hzh (by rw [← hsome4]; exact hzs)
+                  · rcases hz with h | ⟨o', ho', hz'⟩
+                    · exact hO1moved z _ h
+                    · cases ho'; exact moved_old _ (by rw [hpay]; exact hz')
+                  · rcases hz with ⟨wr, h⟩ | ⟨o', ho', hz'⟩
+                    · exact hxhand z wr (by cases h; rfl)
+                    · cases ho'
+                      exact hback.handleOk (by rw [← hpay]; exact hz') hl
     · cases hset
+
+theorem mapSet_ok {w : World} {p : SlabID} {k : MKey} {v : WVal} {cx : Ctx} {oldr : Option Elem} {w' : World}
+    {cx' : Ctx} (H : WorldOk D w cx.ctr) (hhand : HandleOk w p) (hk : KeyOk w.T 4 (D p) k)
+    (hv : WValOk w p (maxInlineMapValue w.T k.size) v)
+    (h : w.mapSet p k v cx = .ok (oldr, w', cx')) :
+    WorldOk D w' cx'.ctr ∧ cx.ctr ≤ cx'.ctr ∧ MapSetAt w w' p k v oldr ∧ HandleOk w' p ∧ SigFrame w w' p := by
+  obtain ⟨rank0, H0⟩ := H
+  obtain ⟨h1, h2, h3, h4, h5, _⟩ := mapSet_okA H0 hhand hk hv h
+  exact ⟨h1, h2, h3, h4, h5⟩
 
 /-! ### `mapRemove` -/
 
-theorem mapRemove_ok {w : World} {p : SlabID} {k : MKey} {cx : Ctx} {rk : MKey} {rv' : Elem} {w' : World}
-    {cx' : Ctx} (H : WorldOk D w cx.ctr) (hhand : HandleOk w p) (hk : KeyOk w.T 4 (D p) k)
-    (h : w.mapRemove p k cx = .ok (rk, rv', w', cx')) :
-    WorldOk D w' cx'.ctr ∧ cx.ctr ≤ cx'.ctr ∧ MapRemovedAt w w' p k rk rv' ∧ HandleOk w' p ∧ SigFrame w w' p := by
-  obtain ⟨rank0, H0⟩ := H
+theorem mapRemove_okA {rank0 : SlabID → Nat} {w : World} {p : SlabID} {k : MKey} {cx : Ctx} {rk : MKey} {rv' : Elem}
+    {w' : World} {cx' : Ctx} (H0 : WorldOkGen D rank0 none (fun _ => False) w cx.ctr) (hhand : HandleOk w p)
+    (hk : KeyOk w.T 4 (D p) k) (h : w.mapRemove p k cx = .ok (rk, rv', w', cx')) :
+    WorldOk D w' cx'.ctr ∧ cx.ctr ≤ cx'.ctr ∧ MapRemovedAt w w' p k rk rv' ∧ HandleOk w' p ∧ SigFrame w w' p ∧
+      OpFrame rank0 w w' p (Moved none (some rv')) := by
   unfold mapRemove at h
   split at h
   · rename_i m hpm
@@ -566,20 +656,54 @@ theorem mapRemove_ok {w : World} {p : SlabID} {k : MKey} {cx : Ctx} {rk : MKey} 
           have hhand4 : HandleOk w' p :=
             hhand3.transfer (fun q y => (hS34.holds_iff q y).mp)
               (CurKept.of_sig hS34 hidx43 (fun y hiy hy _ => by rw [hh4]; exact hy))
+          have hback : HandedBack w w' rv := by
+            intro x c hx hc
+            have hxs3 : (w3.cont? x).isSome := by rw [F3.sig.isSome, hsome2, hc]; rfl
+            have hxp : x ≠ p := hpnot x hx
+            have hc3' : w3.cont? x = some c := by
+              have hrk' := H0.rank p x (holds_of_kslot hpm hks hx) (by rw [hc]; rfl)
+              rw [F3.above x hxp (by omega), cont?_setCont_ne _ _ _ _ hxp]; exact hc
+            obtain ⟨c', hc', hni, hsd⟩ := f2 x c hx hc3'
+            refine ⟨c', hc', hni, hsd.vid, hsd.storedElems, ?_⟩
+            intro q hq
+            exact hunref x hx hxs3 q ((hS34.holds_iff q x).mp hq)
+          -- all the handles
+          have hEold : ∀ z, Moved none (some rv') z → rv.pay = .ref z := by
+            rintro z (⟨wr, h⟩ | ⟨o, h, hz⟩)
+            · cases h
+            · cases h; rw [← hpay]; exact hz
+          have hsome4 : ∀ z, (w'.cont? z).isSome = (w.cont? z).isSome := by
+            intro z; rw [hS34.isSome, F3.sig.isSome, hsome2]
+          have K12 : HKeep (Moved none (some rv')) w (w.setCont p (.map m')) := by
+            refine hkeep_remove (pc' := .map m') (i := A.length) _ hpm rfl (kslots_map_erase w.T hA hB) hks
+              (fun z hz => moved_old none (by rw [hpay]; exact hz)) rfl ?_ (by simp) (fun z hz => by simp [Ne.symm hz])
+            intro q x
+            split
+            · rename_i hpq; subst hpq
+              rw [idxOf_setCont, H0.map_noidx hpm x]; rfl
+            · rfl
+          have K23 : HKeep (Moved none (some rv')) _ w3 :=
+            HKeep.of_curKept _ (fun q y => (F3.sig.holds_iff q y).mp) F3.cur
+          have K34 : HKeep (Moved none (some rv')) w3 w' := HKeep.of_sig _ hS34 hidx43 hh4
           refine ⟨⟨rank0, by rw [hctr4]; exact H5⟩, by omega, ⟨m, m3, rv, hpm, hp4, hrk,
-            ⟨A, B, hA, by rw [hl3]; exact hB⟩, hpay, ?_⟩, hhand4,
-            ((sigFrame_setCont _ _ _).trans (SigFrame.of_sig F3.sig p)).trans (SigFrame.of_sig hS34 p)⟩
-          intro x c hx hc
-          have hxs3 : (w3.cont? x).isSome := by rw [F3.sig.isSome, hsome2, hc]; rfl
-          have hxp : x ≠ p := hpnot x hx
-          have hc3' : w3.cont? x = some c := by
-            have hrk' := H0.rank p x (holds_of_kslot hpm hks hx) (by rw [hc]; rfl)
-            rw [F3.above x hxp (by omega), cont?_setCont_ne _ _ _ _ hxp]; exact hc
-          obtain ⟨c', hc', hni, hsd⟩ := f2 x c hx hc3'
-          refine ⟨c', hc', hni, hsd.vid, hsd.storedElems, ?_⟩
-          intro q hq
-          exact hunref x hx hxs3 q ((hS34.holds_iff q x).mp hq)
+            ⟨A, B, hA, by rw [hl3]; exact hB⟩, hpay, hback⟩, hhand4,
+            ((sigFrame_setCont _ _ _).trans (SigFrame.of_sig F3.sig p)).trans (SigFrame.of_sig hS34 p),
+            fun z hz hrk' hzE => ⟨?_, ?_⟩, fun q y _ => ?_, fun z hzh hzs => ?_⟩
+          · rw [f1 z (fun h => hzE (moved_old none (by rw [hpay]; exact h))), F3.above z hz hrk',
+              cont?_setCont_ne _ _ _ _ hz]
+          · rw [hh4, F3.hinfo z hz hrk']; rfl
+          · rw [hidx43, F3.idx]; rfl
+          · exact ((K12.trans K23).trans K34).handleOk
+              (fun z hz hl => hback.handleOk (hEold z hz) hl) hzh (by rw [← hsome4]; exact hzs)
   · cases h
+
+theorem mapRemove_ok {w : World} {p : SlabID} {k : MKey} {cx : Ctx} {rk : MKey} {rv' : Elem} {w' : World}
+    {cx' : Ctx} (H : WorldOk D w cx.ctr) (hhand : HandleOk w p) (hk : KeyOk w.T 4 (D p) k)
+    (h : w.mapRemove p k cx = .ok (rk, rv', w', cx')) :
+    WorldOk D w' cx'.ctr ∧ cx.ctr ≤ cx'.ctr ∧ MapRemovedAt w w' p k rk rv' ∧ HandleOk w' p ∧ SigFrame w w' p := by
+  obtain ⟨rank0, H0⟩ := H
+  obtain ⟨h1, h2, h3, h4, h5, _⟩ := mapRemove_okA H0 hhand hk h
+  exact ⟨h1, h2, h3, h4, h5⟩
 
 end World
 end Atree
